@@ -606,7 +606,13 @@ func runMatchPair(c *core.Ctx) {
 	okCount := false
 	detail := "no comparison of the number of found tag names with the number of tag conditions"
 	if mu != nil {
-		fr := an.SymFrame("len("+an.PathOf(mu.Map)+")", "len(recv.f.Tags)").AssumePresent("recv.f.Tags")
+		// the number of conditions, named in the host's own terms (the host may be a helper
+		// that is handed the condition map as a parameter)
+		condMap := "recv.f.Tags"
+		if lk, ok := inner.X.(*ssa.Lookup); ok {
+			condMap = an.PathOf(lk.X)
+		}
+		fr := an.SymFrame("len("+an.PathOf(mu.Map)+")", "len("+condMap+")").AssumePresent(condMap)
 		fr.Domain = nil
 		// (read off the paths on which the host's verdict may be true: the count must be ≥ #conditions)
 		if tps, ok := an.ResultPaths(host, 0, true); ok && len(tps) > 0 {
